@@ -244,6 +244,7 @@ def math_argtype(repo, res):
             key = f"{h.key}:{sname}:{fn}({','.join(d.split('.')[1] for d in dts)})"
             res.ob(key)
             it = Interp(repo, load_classes(repo), primary=FM)
+            it.obj_classes = {"Formatter": FM}
             it.overrides["warnings.warn"] = _PyCall(lambda *a, **k: None)
             it.overrides["np.issubdtype"] = _PyCall(lambda t, k: (k.endswith("complexfloating") if isinstance(k, str) else False) and getattr(t, "f", {}).get("name", "").startswith("complex"))
             it.overrides["np.complexfloating"] = "np.complexfloating"
@@ -277,6 +278,7 @@ def math_argtype(repo, res):
                 key = f"{h.key}:{sname}:{fn}({','.join(d.split('.')[1] for d in dts)}):complex-argument"
                 res.ob(key)
                 it = Interp(repo, load_classes(repo), primary=FM)
+                it.obj_classes = {"Formatter": FM}
                 it.overrides["warnings.warn"] = _PyCall(lambda *a, **k: None)
                 it.overrides["np.issubdtype"] = _PyCall(lambda t, k: (k.endswith("complexfloating") if isinstance(k, str) else False) and getattr(t, "f", {}).get("name", "").startswith("complex"))
                 it.overrides["np.complexfloating"] = "np.complexfloating"
@@ -302,6 +304,7 @@ def math_argtype(repo, res):
             key = f"{h.key}:{sname}:{fn}({','.join(d.split('.')[1] for d in dts)}):real-argument-in-complex-mode"
             res.ob(key)
             it = Interp(repo, load_classes(repo), primary=FM)
+            it.obj_classes = {"Formatter": FM}
             it.overrides["warnings.warn"] = _PyCall(lambda *a, **k: None)
             it.overrides["np.issubdtype"] = _PyCall(lambda t, k: (k.endswith("complexfloating") if isinstance(k, str) else False) and getattr(t, "f", {}).get("name", "").startswith("complex"))
             it.overrides["np.complexfloating"] = "np.complexfloating"
@@ -325,6 +328,7 @@ def math_argtype(repo, res):
             key = f"{h.key}:{sname}:{fn}(SCALAR):no-complex-version"
             res.ob(key)
             it = Interp(repo, load_classes(repo), primary=FM)
+            it.obj_classes = {"Formatter": FM}
             it.overrides["warnings.warn"] = _PyCall(lambda *a, **k: None)
             it.overrides["np.issubdtype"] = _PyCall(lambda t, k: (k.endswith("complexfloating") if isinstance(k, str) else False) and getattr(t, "f", {}).get("name", "").startswith("complex"))
             it.overrides["np.complexfloating"] = "np.complexfloating"
